@@ -187,6 +187,14 @@ func evalSig(c CaseSig) Result {
 		if wantF := refCharFlags(c.CallID); sig0.CidSig&charFlagMask != wantF {
 			return viol("CidSig special-character flags %#x, the Call-ID %q (no IP inside) has %#x\nmsg=%s", uint(sig0.CidSig&charFlagMask), c.CallID, uint(wantF), B(base))
 		}
+		// "call-id short length (w/o ip) ... rounded to multiple of 4 ... excessive lengths are represented by 0xff"
+		wantLen := (len(c.CallID) + 3) / 4
+		if wantLen > 0xff {
+			wantLen = 0xff
+		}
+		if int(sig0.CidSLen) != wantLen {
+			return viol("CidSLen = %d for a Call-ID of %d bytes without an address (documented: length/4 rounded up, at most 0xff)\nmsg=%s", sig0.CidSLen, len(c.CallID), B(base))
+		}
 		if sig0.CidSig&ipPosMask != 0 {
 			return viol("CidSig %#x has an IP-position flag, the Call-ID %q contains no address\nmsg=%s", uint(sig0.CidSig), c.CallID, B(base))
 		}
@@ -265,7 +273,10 @@ var fpNames = map[string][2]string{
 var fpKinds = []string{"callid", "contact", "cseq", "from", "maxfwd", "to", "via", "ua"}
 
 func genCallIDText(t *rapid.T) B {
-	switch weighted(t, "cid_k", 3, 2, 2, 2, 2) {
+	switch weighted(t, "cid_k", 12, 8, 8, 8, 8, 1) {
+	case 5:
+		// around the point where the stored length saturates (4*255 = 1020 bytes)
+		return append(bytes.Repeat([]byte("a1"), 500), genFrom(t, "cid_long", "abcdef0123-", 8, 120)...)
 	case 0:
 		return genFrom(t, "cid_hex", "0123456789abcdef", 8, 32)
 	case 1:
